@@ -43,7 +43,8 @@ RULE = (
     "op2(b) with op in {identical rebuild, swap case of names/host/namespace "
     "at every nesting level, shuffle keybindings/properties/methods/"
     "parameters/qualifiers at every level, numeric-type/Char16/None-vs-"
-    "default/UTC-offset variant, single-attribute mutant of a randomly "
+    "default/UTC-offset variant, special-case-mapping variant of one "
+    "name-like attribute, single-attribute mutant of a randomly "
     "chosen (nested) node, independent object}; all laws are evaluated on "
     "the 4 objects (a, rebuilt a, b, c).  copies: object x copy method x up "
     "to 4 mutation steps on the copy.  Non-trivial = the pair (a, b) consists "
@@ -53,11 +54,17 @@ RULE = (
     "Distinct = distinct generated example.")
 ASSUMPTIONS = [
     "no NaN anywhere in the objects (the property excludes NaN)",
-    "CIM names are ASCII identifiers; 'differs only in case' = ASCII letters "
-    "swapped (lower() vs casefold() differences are not exercised)",
-    "instance paths have >= 1 keybinding with a non-None name and non-None "
-    "value; names of the keybindings of CIMInstance.path are disjoint from "
-    "the property names of that instance (the deprecated propagation of "
+    "CIM names are ASCII identifiers, some with one or two non-ASCII letters "
+    "that have special case mappings (sharp s, long s, final sigma, "
+    "ligatures, dotted I, ...); 'differs only in case' (asserted equal) = "
+    "ASCII letters swapped; objects whose names differ by such a special "
+    "case mapping ('Stra\u00dfe' vs 'STRASSE') only have to obey the laws - "
+    "whether they are equal is not asserted (lower() vs casefold())",
+    "instance paths have 0..3 keybindings (keyless paths are legal objects; "
+    "pywbem only warns when converting them) with non-None names and "
+    "non-None values; names of the keybindings of CIMInstance.path are "
+    "disjoint (under lower() and casefold()) from the property names of "
+    "that instance (the deprecated propagation of "
     "property values into path keybindings would otherwise overwrite them)",
     "a pair that differs in the numeric Python type of a keybinding (int vs "
     "UintN, 1 vs 1.0 vs True), in str vs Char16, in None vs the explicit "
@@ -101,6 +108,11 @@ SENSITIVITY = [
     "copies/copy:copy():not-equal:qual",
     "SlottedPickleMixin.__getstate__ skips _propagated -> "
     "copies/eq:raises:<kind>:AttributeError@_cim_obj:propagated",
+    "CIMInstance.path setter skips the copy for a path without keybindings "
+    "(seeded change1) -> copies/indep:copy():inst:path (keyless paths)",
+    "_eq_name uses casefold() while _hash_name uses lower() (seeded "
+    "change2) -> eq_*/hash:equal-objects-differ:<kind> (special-case-"
+    "mapping name variants, law-only)",
     "control: _CIMComparisonMixin.__ne__ = not other.__eq__(self) "
     "(semantically equivalent) -> no new signature",
     "control: CIMParameter.__hash__ drops array_size (still lawful: equal "
@@ -149,6 +161,15 @@ class Tape:
 # ---------------------------------------------------------------------------
 # recipes: normalisation, build
 
+def _folds(names):
+    "lower() and casefold() forms of the names"
+    out = set()
+    for n in names:
+        out.add(n.lower())
+        out.add(n.casefold())
+    return out
+
+
 def norm(x):
     "NaN -> 0.5; path keys of instances disjoint from property names"
     if isinstance(x, float):
@@ -156,13 +177,13 @@ def norm(x):
     if isinstance(x, dict):
         d = {k: norm(v) for k, v in x.items()}
         if d.get('k') == 'inst' and d.get('path') is not None:
-            names = {p['name'].lower() for p in d['properties']}
+            names = _folds(p['name'] for p in d['properties'])
             used = set()
             keys = []
             for n, kt, v in d['path']['keys']:
-                while n.lower() in names or n.lower() in used:
+                while _folds([n]) & (names | used):
                     n = n + '_k'
-                used.add(n.lower())
+                used |= _folds([n])
                 keys.append((n, kt, v))
             d['path']['keys'] = keys
         return d
@@ -346,8 +367,8 @@ def nodes(r, out, sibs=None):
 
 def _fresh_name(base, sibs, tape):
     new = (base or 'N') + tape.pick(['X', '_m', '9', 'Zq'])
-    low = {s.lower() for s in (sibs or ())}
-    while new.lower() in low:
+    low = _folds(sibs or ())
+    while _folds([new]) & low:
         new += '_'
     return new
 
@@ -365,7 +386,8 @@ def _m_optname(node, f, tape, pool):
         node[f] = None
     else:
         new = tape.pick(pool)
-        node[f] = new if new.lower() != old.lower() else old + 'X'
+        # different under lower() and under casefold()
+        node[f] = new if not _folds([new]) & _folds([old]) else old + 'X'
 
 
 def _m_tristate(node, f, tape):
@@ -802,11 +824,12 @@ def _m_keys(node, tape):
     keys = list(node['keys'])
     names = [n for n, _kt, _v in keys]
     c = tape.next(6)
-    if c == 0:
+    if c == 0 or not keys:
         keys.insert(tape.next(len(keys) + 1),
                     (_fresh_name('NewK', names, tape), 'string', 'v'))
         sub = 'add'
-    elif c == 1 and len(keys) > 1:
+    elif c == 1:
+        # removing the last keybinding gives a (legal) keyless path
         del keys[tape.next(len(keys))]
         sub = 'remove'
     elif c == 2:
@@ -1013,8 +1036,140 @@ def typevar(r, tape):
     return None
 
 
+# Pairs of spellings that are related by a "special" case mapping: equal
+# under str.casefold() but not (all of them) under str.lower(), plus plain
+# non-ASCII case pairs.  Used for law-only variants: whether two names that
+# differ like this are the same CIM name is NOT asserted (DESIGN 2.6), but
+# ==, != and hash() must stay consistent with each other for them.
+FOLD_PAIRS = [
+    ('\u00df', 'SS'), ('\u00df', 'ss'), ('\u1e9e', '\u00df'), ('\u1e9e', 'SS'),
+    ('\u017f', 'S'), ('\u017f', 's'),
+    ('\u03c2', '\u03a3'), ('\u03c2', '\u03c3'), ('\u03a3', '\u03c3'),
+    ('\ufb01', 'FI'), ('\ufb01', 'fi'), ('\ufb00', 'ff'),
+    ('\u0130', 'i\u0307'), ('\u01c5', '\u01c4'), ('\u01c5', '\u01c6'),
+    ('\u00b5', '\u03bc'), ('\u00b5', '\u039c'), ('\u212a', 'k'),
+    ('\u0149', '\u02bcn'),
+    ('\u00c4', '\u00e4'), ('\u00c9', '\u00e9'), ('\u03a9', '\u03c9'),
+    ('\u0416', '\u0436'), ('\u00d8', '\u00f8'),
+]
+_FOLD_TOKENS = ['\u00df', '\u017f', '\u03c2', '\ufb01', '\u0130', '\u01c5',
+                '\u00b5', '\u1e9e', '\u00c4', '\u03a3', '\u0416', 'Stra\u00dfe',
+                '\u039f\u0394\u039f\u03a3x', 'Ma\u017ft']
+
+
+_FOLD_CHARS = sorted({c for pair in FOLD_PAIRS for side in pair
+                       for c in side if not c.isascii()})
+
+
+def _name_slots(r):
+    """
+    All name-like attributes in recipe r: list of (get, set, sibling names)
+    for classname, superclass, name, class_origin, reference_class,
+    namespace, host, keybinding names and NocaseDict keys.
+    """
+    out = []
+    lst = []
+    nodes(r, lst)
+    for node, sibs in lst:
+        k = node['k']
+        if k == 'ncd':
+            names = [key for key, _v in node['items']]
+            for i in range(len(node['items'])):
+                out.append((
+                    lambda node=node, i=i: node['items'][i][0],
+                    lambda v, node=node, i=i: node['items'].__setitem__(
+                        i, (v, node['items'][i][1])), names))
+            continue
+        for f in NAME_FIELDS[k]:
+            if isinstance(node.get(f), str):
+                out.append((lambda node=node, f=f: node[f],
+                            lambda v, node=node, f=f: node.__setitem__(f, v),
+                            sibs if f == 'name' else None))
+        if k == 'ipath':
+            names = [n for n, _kt, _v in node['keys']]
+            for i in range(len(node['keys'])):
+                out.append((
+                    lambda node=node, i=i: node['keys'][i][0],
+                    lambda v, node=node, i=i: node['keys'].__setitem__(
+                        i, (v,) + tuple(node['keys'][i][1:])), names))
+    return out
+
+
+def fold_inject(r, tape, tries=4):
+    "put a special-casing character into some name of r (in place)"
+    slots = _name_slots(r)
+    if not slots:
+        return False
+    for _ in range(tries):
+        get, put, sibs = tape.pick(slots)
+        old = get()
+        tok = tape.pick(_FOLD_TOKENS)
+        new = old + tok if tape.chance(2, 3) else old[:1] + tok + old[1:]
+        if sibs is not None and \
+                _folds([new]) & _folds(s for s in sibs if s != old):
+            continue
+        put(new)
+        return True
+    return False
+
+
+def foldvar(r, tape):
+    """
+    Variant in which one occurrence of one side of a FOLD_PAIRS pair in a
+    name-like attribute is replaced by the other side (law-only).  If no
+    name contains such a piece, one is injected first.
+    """
+    new = copy.deepcopy(r)
+    for attempt in range(2):
+        cands = []
+        for get, put, _sibs in _name_slots(new):
+            name = get()
+            for x, y in FOLD_PAIRS:
+                if x in name:
+                    cands.append((name, put, x, y))
+                if y in name:
+                    cands.append((name, put, y, x))
+        if cands:
+            name, put, x, y = tape.pick(cands)
+            put(name.replace(x, y, 1))
+            return norm(new), 'fold:%s' % (
+                'ascii-to-special' if x.isascii() else
+                'special-to-ascii' if y.isascii() else 'special-to-special')
+        if attempt == 0 and not fold_inject(new, tape):
+            return None
+    return None
+
+
+def specialise(r, seed):
+    """
+    Post-processing of a generated recipe: sometimes make instance paths
+    keyless (CIMInstanceName without keybindings is a legal object) and
+    sometimes put special-casing characters into names.
+    """
+    tape = Tape(seed)
+    r = copy.deepcopy(r)
+    if tape.chance(1, 3):
+        lst = []
+        nodes(r, lst)
+        paths = [n for n, _s in lst if n['k'] == 'ipath']
+        inst_paths = [n['path'] for n, _s in lst
+                      if n['k'] == 'inst' and n.get('path')]
+        first = True
+        for pth in inst_paths + paths:
+            # the path of an instance / the outermost path first
+            if first or tape.chance(1, 3):
+                pth['keys'] = []
+            first = False
+    if tape.chance(1, 6):
+        fold_inject(r, tape)
+        if tape.chance(1, 3):
+            fold_inject(r, tape)
+    return r
+
+
 OPS = ['same', 'case', 'order', 'caseorder', 'case', 'order', 'typevar',
-       'typevar', 'mutant', 'mutant', 'mutant', 'mutant', 'fresh']
+       'typevar', 'mutant', 'mutant', 'mutant', 'mutant', 'fresh', 'foldvar',
+       'foldvar']
 
 
 def apply_op(r, op, fresh):
@@ -1028,8 +1183,13 @@ def apply_op(r, op, fresh):
         if fresh is not None:
             return norm(fresh), ANY, 'fresh', ''
         name = 'mutant'
-    if _is_dt(r) and name in ('case', 'order', 'caseorder'):
+    if _is_dt(r) and name in ('case', 'order', 'caseorder', 'foldvar'):
         name = 'typevar'    # a CIMDateTime has no names and no children
+    if name == 'foldvar':
+        res = foldvar(r, tape)
+        if res is not None:
+            return res[0], ANY, 'foldvar', res[1]
+        name = 'caseorder'
     if name == 'typevar':
         res = typevar(r, tape)
         if res is not None:
@@ -1099,6 +1259,13 @@ def _param_embedded():
 
 
 def recipe(kind):
+    if kind == 'datetime':
+        return _recipe(kind)
+    return st.tuples(_recipe(kind), st.integers(0, 2 ** 32)).map(
+        lambda t: specialise(t[0], t[1]))
+
+
+def _recipe(kind):
     if kind == 'ipath':
         return S.instance_path(depth=2)
     if kind == 'cpath':
@@ -1162,6 +1329,8 @@ def _features(r):
     for x in S.walk(r):
         if isinstance(x, dict):
             if x.get('k') == 'ipath':
+                if not x['keys']:
+                    out.add('keyless-path')
                 for _n, kt, _v in x['keys']:
                     if kt == 'reference':
                         out.add('nested-ref')
@@ -1175,6 +1344,12 @@ def _features(r):
                     out.add('embedded-object')
                 if isinstance(v, list) and None in v:
                     out.add('array-with-null')
+    if isinstance(r, dict):
+        for get, _put, _sibs in _name_slots(r):
+            name = get()
+            if not name.isascii() and any(t in name for t in _FOLD_CHARS):
+                out.add('special-casing-name')
+                break
     return out
 
 
@@ -1313,6 +1488,7 @@ def laws_oracle(ctx, ex):
         # one evaluation = one triple
         ctx.case(key=(kind, ra, op1, op2, fresh if n1 == 'fresh' else None),
                  nontrivial=n1 in ('case', 'order', 'caseorder', 'typevar',
+                                   'foldvar',
                                    'mutant'), classes=classes)
 
 
@@ -1603,16 +1779,18 @@ def copies_oracle(ctx, ex):
     # diversify: sometimes copy a variant/mutant instead of the raw recipe
     if op[0] in ('mutant', 'caseorder'):
         r = apply_op(r, op, None)[0]
+    feats = ['has:' + f for f in sorted(_features(r))
+             if f in ('keyless-path', 'special-casing-name')]
     for method, steps in runs:
         # one evaluation = one (object, copy method, mutation steps)
-        _one_copy(ctx, kind, r, method, steps)
+        _one_copy(ctx, kind, r, method, steps, feats)
 
 
-def _one_copy(ctx, kind, r, method, steps):
+def _one_copy(ctx, kind, r, method, steps, feats=()):
     # pylint: disable=too-many-branches,too-many-statements
     x = build(r)
     ref = dump(x)
-    classes = ['kind:' + kind, 'method:' + method]
+    classes = ['kind:' + kind, 'method:' + method] + list(feats)
     key = (kind, r, method, steps)
     applied = 0
     has_copy = kind != 'datetime' or method != 'copy()'
